@@ -114,7 +114,7 @@ typedef enum {
     OP_ARR_GET      = 0x53,  /* pop index, pop array -> push value */
     OP_ARR_SET      = 0x54,  /* pop value, pop index, pop array -> push array */
     OP_ARR_LEN      = 0x55,  /* pop array -> push int */
-    OP_ARR_SLICE    = 0x56,  /* pop end, pop start, pop array -> push array */
+    OP_ARR_SLICE    = 0x56,  /* pop length, pop start, pop array -> push array */
     OP_ARR_REMOVE   = 0x57,  /* pop index, pop array -> push array */
     OP_ARR_LITERAL  = 0x58,  /* operands: u8 type tag, u16 count; pops count values */
 
